@@ -6,7 +6,7 @@ from .common import last
 ID = "C08"
 BUDGET = {"quick": 700, "thorough": 30000}
 RULE = ("pairs of generated templates A, B (all construct kinds incl. blocks, partials, partial blocks with @partial-block, "
-        "triple-brace, '~' tags; nesting ≤ 5; no decorators / inline definitions in A): render(A+'|'+B) must equal "
+        "triple-brace, '~' tags, block helpers spelled without a body; nesting ≤ 5; no decorators / inline definitions in A): render(A+'|'+B) must equal "
         "render(A+'|') followed by render('|'+B) without its first '|', and fail iff one of them fails; single constructs "
         "repeated 2..4 times must yield that many copies; a probe helper reading the public RenderContext getters before and "
         "after a construct must print the same state; 4 renders per case on the real crate, each mirrored by the model; "
@@ -30,6 +30,13 @@ def gen_case(rng: Rng, i):
         templates.append((pn, tg.partial_body(2, uses_block=(k == 0))))
     opt = {"inline": False, "decorators": False, "missing": 0.2}
     A = TG(rng.fork("A"), data, helpers, pnames, opt=opt).template(rng.range(1, 4))
+    if rng.chance(0.4):
+        # block helpers spelled WITHOUT a body ({{with x}}, {{each x}}, {{if x}} as plain expressions): they enter their
+        # scope with nothing to render in it, and must leave it again
+        keys = [k for k, v in data.items() if k.isidentifier() and v not in (None, False, 0, "", [], {})] or ["this"]
+        nb = "{{%s %s%s}}" % (rng.pick(["with", "each", "if", "unless", "with", "each"]), rng.pick(keys + keys + ["nosuch", "this", "@root"]),
+                              rng.pick(["", "", " as |bp|", " as |bp ix|"]))
+        A = rng.pick([nb + A, A + nb, nb])
     mode = rng.pick(["pair", "pair", "repeat", "probe"])
     ops = [{"op": "reg_string", "reg": 0, "name": n, "src": s} for n, s in templates]
     def rend(src):
@@ -54,6 +61,37 @@ def generate(rng: Rng, n, tier="quick"):
         c, m = gen_case(rng.fork(i), i)
         c["id"] = "%s-%06d" % (ID, i)
         out.append((c, m))
+    # directed: partial blocks inside a partial that was itself called with a block (what `@partial-block` denotes after a
+    # finished nested block call), and body-less block helpers – every operand in pair and repeat mode
+    regs = [("lay", "{{#> inner}}x{{/inner}}|{{> @partial-block}}"), ("inner", "[{{> @partial-block}}]"),
+            ("lay2", "{{> @partial-block}}{{#> inner}}y{{/inner}}{{> @partial-block}}"), ("slot", "<{{> @partial-block}}>")]
+    operands = ["{{#> lay}}B{{/lay}}", "{{#> lay2}}C{{v}}{{/lay2}}", "{{#> lay}}{{#> lay2}}D{{/lay2}}{{/lay}}", "{{#> slot}}{{#> lay}}E{{/lay}}{{/slot}}",
+                "{{with o}}", "{{each o}}", "{{#> inner}}{{with o}}{{v}}{{/inner}}"]
+    dd = {"v": "V", "o": {"v": "inner"}}
+    k = 0
+    for A in operands:
+        for B in operands + ["{{v}}{{this.v}}{{#with o}}{{v}}{{../v}}{{/with}}"]:
+            ops = [{"op": "reg_string", "reg": 0, "name": nm, "src": sr} for nm, sr in regs]
+            rend = lambda src: {"op": "render", "reg": 0, "api": "render_template", "src": src, "data": enc(dd)}
+            c = {"kind": "session", "regs": [{"escape": "none"}], "ops": ops + [rend(A + "|" + B), rend(A + "|"), rend("|" + B)], "id": "C08-d%03d" % k}
+            out.append((c, {"mode": "pair", "A": A}))
+            k += 1
+        c = {"kind": "session", "regs": [{"escape": "none"}], "ops": [{"op": "reg_string", "reg": 0, "name": nm, "src": sr} for nm, sr in regs]
+             + [{"op": "render", "reg": 0, "api": "render_template", "src": "|" + "|".join([A] * 3) + "|", "data": enc(dd)},
+                {"op": "render", "reg": 0, "api": "render_template", "src": "|" + A + "|", "data": enc(dd)}], "id": "C08-d%03d" % k}
+        out.append((c, {"mode": "repeat3", "A": A}))
+        k += 1
+    # … and the same pairs INSIDE the body of a partial called with a block (siblings there share what `@partial-block` denotes)
+    inner_ops = ["{{#> inner}}x{{/inner}}", "{{> @partial-block}}", "{{#> inner}}{{> @partial-block}}{{/inner}}", "{{#> slot}}s{{/slot}}", "{{v}}"]
+    for A in inner_ops:
+        for B in inner_ops:
+            ops = [{"op": "reg_string", "reg": 0, "name": nm, "src": sr} for nm, sr in regs]
+            ops += [{"op": "reg_string", "reg": 0, "name": "layAB", "src": A + "|" + B}, {"op": "reg_string", "reg": 0, "name": "layA", "src": A + "|"},
+                    {"op": "reg_string", "reg": 0, "name": "layB", "src": "|" + B}]
+            rend = lambda nm: {"op": "render", "reg": 0, "api": "render_template", "src": "{{#> %s}}Z{{v}}{{/%s}}" % (nm, nm), "data": enc(dd)}
+            c = {"kind": "session", "regs": [{"escape": "none"}], "ops": ops + [rend("layAB"), rend("layA"), rend("layB")], "id": "C08-d%03d" % k}
+            out.append((c, {"mode": "pair", "A": A}))
+            k += 1
     # listed witness of F20: a compact comment whose text begins with `--` opens a block comment when a later `--}}` exists
     A = "x{{! ---}}y"
     c = {"kind": "session", "regs": [{"escape": "none"}], "ops": [
